@@ -228,6 +228,8 @@ pub struct C {
     pub ref_out: Option<Vec<u8>>,
     /// the header the peer sent (C10), attached to the next decode event
     pub sent: Option<(u32, u32)>,
+    /// the next decode event is performed on a clone taken in mid-header (C12)
+    pub is_clone: bool,
 }
 
 pub fn wire_server(exp: &str, size: u32, opcode: u16) -> Vec<u8> {
@@ -357,7 +359,7 @@ fn io_res<T>(r: Result<std::io::Result<T>, String>, okf: impl FnOnce(T) -> Value
 
 impl C {
     pub fn new(tr: Tr) -> C {
-        C { tr, next: 1, ref_out: None, sent: None }
+        C { tr, next: 1, ref_out: None, sent: None, is_clone: false }
     }
     fn sent_json(&mut self) -> Value {
         match self.sent.take() {
@@ -587,6 +589,9 @@ impl C {
         }, WC));
         let st = c.dec_state();
         let mut e = json!({"ev": "WrathAttempt", "h": c.hd, "bytes": b(&bytes), "via": via, "st": st, "raw": raw, "sent": sent});
+        if self.is_clone {
+            e["clone"] = Value::Bool(true);
+        }
         match r {
             Ok(Some(Some((s, o)))) => { e["res"] = json!({"kind": "ok", "header": hdr_json_server(s, o)}); self.tr.ev(e); Some(Some((s, o))) }
             Ok(Some(None)) => { e["res"] = json!({"kind": "need5"}); self.tr.ev(e); Some(None) }
@@ -600,6 +605,9 @@ impl C {
         let r = guard(|| dec_half!(c, via, |h| { let x = h.decrypt_large_server_header(byte); (x.size, x.opcode) }, WC));
         let st = c.dec_state();
         let mut e = json!({"ev": "WrathComplete", "h": c.hd, "byte": byte, "via": via, "st": st, "raw": raw, "sent": sent});
+        if self.is_clone {
+            e["clone"] = Value::Bool(true);
+        }
         match r {
             Ok(Some((s, o))) => { e["res"] = json!({"kind": "ok", "header": hdr_json_server(s, o)}); self.tr.ev(e); Some((s, o)) }
             Ok(None) => { eprintln!("harness: wrath_complete not available"); std::process::exit(2) }
